@@ -214,6 +214,77 @@ fn judge_decl(w1: &mut Worker, w2: &mut Worker, acc: &mut Acc, idx: u64, decl: S
     }
 }
 
+/// Scale ladder: a library with N exports for every N <= max and import sets that name all / every
+/// other / one of them, rename them in a chain, a full rotation, a swap among N-2 other pairs (in
+/// both orders of the pairs), prefixed and nested. Expected bindings from the algebra on name -> value.
+fn scale_phase(max: usize) -> Acc {
+    par::sweep(
+        max as u64 - 1,
+        1,
+        |_| (new_worker(), new_worker()),
+        |(w1, w2), acc: &mut Acc, i| {
+            let n = i as usize + 2;
+            let lname = LibraryName(vec![ruschm::parser::LibraryNameElement::Identifier(format!("wide{}", n))]);
+            let names: Vec<String> = (1..=n).map(|k| format!("n{}", k)).collect();
+            let src = format!("(define-library (wide{}) (export {}) (begin {}))", n, names.join(" "), (1..=n).map(|k| format!("(define n{} {})", k, k)).collect::<Vec<_>>().join(" "));
+            for w in [&mut *w1, &mut *w2] {
+                match guarded(|| LibraryFactory::from_char_stream(&lname, src.chars())) {
+                    Ok(Ok(f)) => w.it.it.register_library_factory(f),
+                    other => {
+                        acc.mismatch(Mismatch { idx: 7_000_000 + n as u64, case: format!("[scale] {}", src), expected: "the library definition is accepted".into(), observed: format!("{:?}", other.map(|r| r.map(|_| "factory").map_err(|e| e.to_string()))), payload: json!({"declaration": src, "expected": {}}) }, None);
+                        return;
+                    }
+                }
+            }
+            let lib = format!("(wide{})", n);
+            let all: BTreeMap<String, i32> = (1..=n).map(|k| (format!("n{}", k), k as i32)).collect();
+            let odd: Vec<String> = (1..=n).filter(|k| k % 2 == 1).map(|k| format!("n{}", k)).collect();
+            let pairs_text = |ps: &[(String, String)]| ps.iter().map(|(f, t)| format!("({} {})", f, t)).collect::<Vec<_>>().join(" ");
+            let renamed = |ps: &[(String, String)]| -> BTreeMap<String, i32> { all.iter().map(|(k, v)| (ps.iter().find(|(f, _)| f == k).map(|(_, t)| t.clone()).unwrap_or(k.clone()), *v)).collect() };
+            let chain: Vec<(String, String)> = (1..=n).map(|k| (format!("n{}", k), if k < n { format!("n{}", k + 1) } else { "x".to_string() })).collect();
+            let rotation: Vec<(String, String)> = (1..=n).map(|k| (format!("n{}", k), format!("n{}", k % n + 1))).collect();
+            let mut swap: Vec<(String, String)> = (2..n).map(|k| (format!("n{}", k), format!("m{}", k))).collect();
+            swap.push(("n1".into(), format!("n{}", n)));
+            swap.push((format!("n{}", n), "n1".into()));
+            let rev = |ps: &[(String, String)]| ps.iter().rev().cloned().collect::<Vec<_>>();
+            let mut decls: Vec<(String, BTreeMap<String, i32>)> = vec![
+                (lib.clone(), all.clone()),
+                (format!("(only {} {})", lib, names.join(" ")), all.clone()),
+                (format!("(only {} {})", lib, odd.join(" ")), all.iter().filter(|(k, _)| odd.contains(k)).map(|(k, v)| (k.clone(), *v)).collect()),
+                (format!("(only {} n{})", lib, n), [(format!("n{}", n), n as i32)].into_iter().collect()),
+                (format!("(except {} {})", lib, odd.join(" ")), all.iter().filter(|(k, _)| !odd.contains(k)).map(|(k, v)| (k.clone(), *v)).collect()),
+                (format!("(except {} n{})", lib, n), all.iter().filter(|(k, _)| **k != format!("n{}", n)).map(|(k, v)| (k.clone(), *v)).collect()),
+                (format!("(prefix {} p-)", lib), all.iter().map(|(k, v)| (format!("p-{}", k), *v)).collect()),
+            ];
+            for ps in [chain.clone(), rev(&chain), rotation.clone(), rev(&rotation), swap.clone(), rev(&swap)] {
+                let want = renamed(&ps);
+                decls.push((format!("(rename {} {})", lib, pairs_text(&ps)), want.clone()));
+                decls.push((format!("(prefix (rename {} {}) q-)", lib, pairs_text(&ps)), want.iter().map(|(k, v)| (format!("q-{}", k), *v)).collect()));
+                decls.push((format!("(only (rename {} {}) n2)", lib, pairs_text(&ps)), want.iter().filter(|(k, _)| *k == "n2").map(|(k, v)| (k.clone(), *v)).collect()));
+            }
+            for (k, (set, want)) in decls.into_iter().enumerate() {
+                let decl = format!("(import {})", set);
+                acc.evals += 1;
+                acc.count("scale ladder: library with N exports", 1);
+                let got1 = import_bindings(w1, &decl);
+                let got2 = import_bindings(w2, &decl);
+                let exp: BTreeMap<String, Obs> = want.iter().map(|(k, v)| (k.clone(), Obs::Int(*v))).collect();
+                acc.distinct_hash(hash_of(&format!("{:?}", got1)));
+                if !(matches!(&got1, Ok(g) if *g == exp) && got1 == got2) {
+                    let short = |r: &Result<BTreeMap<String, Obs>, String>| match r {
+                        Ok(g) => format!("{:?}", g.iter().filter(|(k, v)| exp.get(*k) != Some(v)).collect::<Vec<_>>()),
+                        Err(e) => e.clone(),
+                    };
+                    acc.mismatch(
+                        Mismatch { idx: 7_000_000 + (n * 100 + k) as u64, case: format!("[scale: {} exports] {}", n, decl), expected: format!("{} bindings, e.g. {:?}", exp.len(), exp.iter().filter(|(k, v)| !matches!(&got1, Ok(g) if g.get(*k) == Some(v))).take(4).collect::<Vec<_>>()), observed: format!("differing: {} / second instance {}", short(&got1), short(&got2)), payload: json!({"declaration": decl, "library": src, "library_name": format!("wide{}", n), "expected": exp.iter().map(|(k, v)| (k.clone(), format!("{}", v))).collect::<BTreeMap<_, _>>()}) },
+                        None,
+                    );
+                }
+            }
+        },
+    )
+}
+
 pub fn run(ctx: &Ctx) -> i32 {
     let depth: usize = std::env::var("C12_DEPTH").ok().and_then(|s| s.parse().ok()).unwrap_or(3);
     setup_files();
@@ -301,8 +372,11 @@ pub fn run(ctx: &Ctx) -> i32 {
             }
         },
     );
-    let _ = std::fs::remove_dir_all(scratch());
+    let mut acc = acc;
+    let scale = if ctx.thorough() { 300 } else { 64 };
     let nterms = acc.states;
+    acc.merge(scale_phase(scale));
+    let _ = std::fs::remove_dir_all(scratch());
     report::finish(
         acc,
         RunInfo {
@@ -310,8 +384,8 @@ pub fn run(ctx: &Ctx) -> i32 {
             tier: ctx.tier_name(),
             seed: ctx.seed,
             exhaustive: true,
-            rule: "every import-set term of nesting depth <= D over a library exporting a b c d: only / except with every subset of the current names, prefixes p-, q- and the empty prefix, rename with every injective partial map of <= 2 current names into the current names + {e f} without duplicate results (swaps, chains, both orders of the pairs); each term with the library supplied natively, as registered source and as a file; every ordered pair of depth-<=1 terms in one declaration and as two declarations in sequence on one interpreter (the later one re-binds), and as the two import sets of a library that re-exports what it imports; each declaration on two interpreter instances; states = terms, distinct = distinct binding sets".into(),
-            bounds: json!({"depth": depth, "terms": nterms, "supply_modes": MODES.len(), "union_pairs": npairs}),
+            rule: "every import-set term of nesting depth <= D over a library exporting a b c d: only / except with every subset of the current names, prefixes p-, q- and the empty prefix, rename with every injective partial map of <= 2 current names into the current names + {e f} without duplicate results (swaps, chains, both orders of the pairs); each term with the library supplied natively, as registered source and as a file; every ordered pair of depth-<=1 terms in one declaration and as two declarations in sequence on one interpreter (the later one re-binds), and as the two import sets of a library that re-exports what it imports; each declaration on two interpreter instances; scale ladder: a library with N exports for every N <= 64 (thorough 300), imported whole / only / except (all, every other, one) / prefixed / renamed in a chain, a full rotation and a swap among N-2 other pairs, both orders of the pairs, also nested in prefix and only; states = terms, distinct = distinct binding sets".into(),
+            bounds: json!({"depth": depth, "terms": nterms, "supply_modes": MODES.len(), "union_pairs": npairs, "scale_ladder_max_exports": scale}),
             assumptions: vec!["hash seeds cannot be enumerated: two instances per declaration are a sample of the seed space, the term space is exhaustive".into()],
             wall_s: ctx.elapsed(),
             extra: json!({}),
